@@ -72,8 +72,6 @@ where T: Types
         drop(std::mem::replace(&mut self.flush_tx, closed_tx));
 
         if let Some(handle) = self.worker.take() {
-            #[cfg(feature = "verif-hooks")]
-            crate::verif_hooks::before_join(handle.thread().id());
             let _ = handle.join();
         }
     }
